@@ -15,6 +15,10 @@ R22 = [('&self', '&mut self')]
 LOADCLONE = (r'\.load\(\)\.deref\(\)\.deref\(\)\.clone\(\)', '.load_clone()', 'every: snapshot of the table held by the cell (Guard -> Arc -> T, cloned)')
 OTHERSTR = (r'\bError::other\("', 'Error::other_str("', 'every: io::Error::other over a string literal')
 LOADDEREF = (r'self\.opts\.load\(\)\.deref\(\)\.out_opts', 'self.opts.load().out_opts', 'every: Guard<Arc<T>>::deref is the loaded value')
+# Option::map / ok_or_else / `?` by definition:  E.map(|x| {B}).ok_or_else(|| {C})?   ==   match E { Some(x) => {B}, None => return Err({C}) }
+MAP_OK_OR_ELSE = (r'(mountpoints\s*\.get\(&inode\)\s*\.cloned\(\))\s*\.map\(\|x\| \{(.*?)\n            \}\)\s*\.ok_or_else\(\|\| \{(.*?)\n            \}\)\?;',
+                  r'match \1 { Some(x) => {\2\n            } None => { return Err({\3\n            }); } };',
+                  'Option::map(closure).ok_or_else(closure)? written as the match it stands for (the closure mutates captured tables)')
 TOSTRING = (r'\bpath\.to_string\(\)', 'str_to_string(path)', 'every: String::from(&str), opaque')
 
 CELLS = r'''
@@ -42,6 +46,10 @@ impl PseudoFs {
     // the pseudo directory tree: mount(path) creates the directories of `path` as needed and returns the inode of the last one
     pub uninterp spec fn mount_ino(&self, path: Seq<char>) -> u64;
     #[verifier::external_body] pub fn mount(&self, mountpoint: &str) -> (r: Result<u64>) ensures r is Ok ==> r->Ok_0 == self.mount_ino(mountpoint@) { unimplemented!() }
+    pub uninterp spec fn walk_ino(&self, path: Seq<char>) -> Option<u64>;
+    #[verifier::external_body] pub fn path_walk(&self, mountpoint: &str) -> (r: Result<Option<u64>>) ensures r is Ok ==> r->Ok_0 == self.walk_ino(mountpoint@) { unimplemented!() }
+    #[verifier::external_body] pub fn get_parent_inode(&self, ino: u64) -> (r: Option<u64>) { unimplemented!() }
+    #[verifier::external_body] pub fn evict_inode(&self, ino: u64) { unimplemented!() }
 }
 #[verifier::external_body] pub fn str_to_string(s: &str) -> (r: String) { unimplemented!() }
 '''
@@ -91,7 +99,7 @@ def unit(root='/repo'):
                     'res is Ok ==> final(self).mount_id_mappings == old(self).mount_id_mappings && final(self).opts == old(self).opts && final(self).initialized == old(self).initialized && final(self).id_mapping == old(self).id_mapping && final(self).next_super == old(self).next_super // [C07.mount.frame]']),
         Fn(MOD, M, 'mount_with_id_mapping', sig_subst=R22, body_resub=[LOADCLONE, TOSTRING, LOADDEREF], ret_name='res', props=['C07', 'C14', 'C12'], canary=True,
            gtag_props={'cap': ['C12'], 'touch': ['C12']},
-           requires=['old(self).sb().len() == 256', 'old(self).maps().len() == 256', 'map_ok(old(self).id_mapping)', 'map_ok(id_mapping)',
+           requires=['old(self).inv()', 'map_ok(id_mapping)',
                      'fs.touch_ok()',
                      # "the VFS ... layers switch on ... only when negotiated": a backend mounted after INIT is initialised with the negotiated set, one mounted before is not initialised here
                      'forall|o: FsOptions| #[trigger] fs.allowed_init(o) <==> (old(self).initialized.cur() && o == old(self).opts.cur().out_opts) // [C12.mount.init]',
@@ -108,12 +116,38 @@ def unit(root='/repo'):
                     'res is Ok ==> final(self).maps() == old(self).maps().update(res->Ok_0 as int, id_mapping) && final(self).id_mapping == old(self).id_mapping // [C14.mount.mapping]',
                     'res is Ok ==> final(self).eff_map(res->Ok_0) == (if id_mapping is Some { id_mapping } else { old(self).id_mapping }) // [C14.mount.effective]',
                     'res is Ok ==> final(self).mp()[old(self).root.mount_ino(path@)].root_entry == final(self).entry_out(res->Ok_0, fs.res_mount()->Ok_0.0.inode, fs.res_mount()->Ok_0.0) // [C14.mount.root_ids]',
-                    'res is Ok ==> final(self).opts == old(self).opts && final(self).initialized == old(self).initialized // [C07.mount.frame]']),
+                    'res is Ok ==> final(self).opts == old(self).opts && final(self).initialized == old(self).initialized // [C07.mount.frame]',
+                    # the table invariant assumed by the routing proofs (unit vfs) is preserved, whatever the outcome
+                    'res is Ok ==> final(self).inv() // [C07.mount.inv]',
+                    'res is Err ==> Vfs::err_frame(*old(self), *final(self)) // [C07.mount.failed.frame] (lemma_inv_frame: the invariant survives a failed mount)',
+                    'res is Ok && old(self).mp().contains_key(old(self).root.mount_ino(path@)) ==> final(self).sb()[old(self).mp()[old(self).root.mount_ino(path@)].fs_idx as int] is None // [C07.mount.overmount] the over-mounted backend is unreachable'],
+           splices=[('Ok(index)', 'before', '''proof {
+            let pino = old(self).root.mount_ino(path@);
+            assert(Vfs::post_mount(*old(self), *self, index, pino, entry, self.sb()[index as int]->Some_0, id_mapping));
+            Vfs::lemma_mount_keeps_inv(*old(self), *self, index, pino, entry, self.sb()[index as int]->Some_0, id_mapping);
+        }''')]),
         Fn(MOD, M, 'mount', sig_subst=R22, ret_name='res', props=['C07', 'C14'],
-           requires=['old(self).sb().len() == 256', 'old(self).maps().len() == 256', 'map_ok(old(self).id_mapping)', 'fs.touch_ok()',
+           requires=['old(self).inv()', 'fs.touch_ok()',
                      'forall|o: FsOptions| #[trigger] fs.allowed_init(o) <==> (old(self).initialized.cur() && o == old(self).opts.cur().out_opts)',
                      'fs.allowed_destroy() <==> (fs.res_mount() is Ok && fs.res_mount()->Ok_0.1 > 0xff_ffff_ffff_ffffu64)'],
-           ensures=['res is Ok ==> final(self).eff_map(res->Ok_0) == old(self).id_mapping // [C14.mount.global] a mount without a mapping of its own uses the global one']),
+           ensures=['res is Ok ==> final(self).eff_map(res->Ok_0) == old(self).id_mapping // [C14.mount.global] a mount without a mapping of its own uses the global one',
+                    'res is Ok ==> final(self).inv()', 'res is Err ==> Vfs::err_frame(*old(self), *final(self))']),
+        Fn(MOD, M, 'umount', sig_subst=R22, body_resub=[LOADCLONE, TOSTRING, MAP_OK_OR_ELSE], ret_name='res', props=['C07', 'C14'], canary=True,
+           splices=[('^', 'after', 'broadcast use axiom_arc_cloned;'), ('Ok((inode, parent))', 'before', 'proof { assert(Vfs::post_umount(*old(self), *self, inode)); Vfs::lemma_umount_keeps_inv(*old(self), *self, inode); }')],
+           requires=['old(self).inv()',
+                     # only the backend mounted at `path` may be shut down
+                     '''forall|i: int| 0 <= i < 256 && (#[trigger] old(self).sb()[i]) is Some ==> (*old(self).sb()[i]->Some_0).touch_ok()
+                            && ((*old(self).sb()[i]->Some_0).allowed_destroy() <==> (old(self).root.walk_ino(path@) is Some && old(self).mp().contains_key(old(self).root.walk_ino(path@)->Some_0)
+                                    && old(self).mp()[old(self).root.walk_ino(path@)->Some_0].fs_idx == i)) // [C07.umount.destroy]'''],
+           ensures=['res is Err ==> final(self).sb() == old(self).sb() && final(self).mp() == old(self).mp() && final(self).maps() == old(self).maps() // [C07.umount.failed]',
+                    '''res is Ok ==> ({ let o = *old(self); let pino = o.root.walk_ino(path@)->Some_0; let idx = o.mp()[pino].fs_idx;
+                        &&& o.root.walk_ino(path@) is Some && o.mp().contains_key(pino) && res->Ok_0.0 == pino
+                        &&& final(self).mp() == o.mp().remove(pino)
+                        &&& final(self).sb() == o.sb().update(idx as int, None)
+                    }) // [C07.umount.tables] the mount point stops denoting the backend and the backend's index stops resolving; every other mount is untouched''',
+                    'res is Ok ==> final(self).maps() == old(self).maps().update(old(self).mp()[old(self).root.walk_ino(path@)->Some_0].fs_idx as int, None) && final(self).id_mapping == old(self).id_mapping // [C14.umount.mapping] the slot keeps no mapping for its next user',
+                    'res is Ok ==> final(self).opts == old(self).opts && final(self).initialized == old(self).initialized && final(self).next_super == old(self).next_super // [C07.umount.frame]',
+                    'res is Ok ==> final(self).inv() // [C07.umount.inv]']),
     ]
     items.append(Raw(TABLES))
     items.append(Group('impl Vfs {', mount_fns))
@@ -123,15 +157,133 @@ def unit(root='/repo'):
 
 
 TABLES = r'''
+// ---- the table invariant that unit `vfs` assumes for routing (Vfs::wf / mount_wf there), and that every mount operation preserves
+impl Vfs {
+    spec fn inv(&self) -> bool {
+        &&& self.sb().len() == 256 && self.maps().len() == 256
+        &&& map_ok(self.id_mapping) && (forall|i: int| 0 <= i < 256 ==> map_ok(#[trigger] self.maps()[i]))
+        // every mount point denotes a live backend at a non-pseudo index with a root number the encoding can carry ...
+        &&& forall|k: u64| #[trigger] self.mp().contains_key(k) ==> self.mp()[k].fs_idx != 0 && self.mp()[k].ino <= 0xff_ffff_ffff_ffffu64 && self.sb()[self.mp()[k].fs_idx as int] is Some
+        // ... two mount points never share a backend index ("a request is delivered to exactly that backend") ...
+        &&& forall|k: u64, l: u64| self.mp().contains_key(k) && self.mp().contains_key(l) && k != l ==> (#[trigger] self.mp()[k]).fs_idx != (#[trigger] self.mp()[l]).fs_idx
+        // ... no index resolves to a backend that is not mounted anywhere (over-mounted or unmounted backends are unreachable) ...
+        &&& forall|i: int| 0 <= i < 256 && (#[trigger] self.sb()[i]) is Some ==> exists|k: u64| self.mp().contains_key(k) && (#[trigger] self.mp()[k]).fs_idx == i
+        &&& self.sb()[0] is None
+        // ... and the root entry kept for a mount point is some backend root entry as the client must see it under the mapping in force for that mount
+        &&& forall|k: u64| #[trigger] self.mp().contains_key(k) ==> exists|e: Entry| self.mp()[k].root_entry == #[trigger] self.entry_out(self.mp()[k].fs_idx, self.mp()[k].ino, e)
+    }
+    // what mount_with_id_mapping guarantees on success (its [C07.mount.tables], [C14.mount.mapping], [C14.mount.root_ids] postconditions)
+    spec fn post_mount(o: Vfs, n: Vfs, idx: u8, pino: u64, e: Entry, fs: Arc<BackFileSystem>, m: Option<(u32, u32, u32)>) -> bool {
+        &&& idx != 0 && o.sb()[idx as int] is None && e.inode <= 0xff_ffff_ffff_ffffu64
+        &&& n.mp().dom() == o.mp().dom().insert(pino) && (forall|k: u64| k != pino && o.mp().contains_key(k) ==> n.mp()[k] == #[trigger] o.mp()[k])
+        &&& n.mp()[pino].fs_idx == idx && n.mp()[pino].ino == e.inode
+        &&& n.sb() == (if o.mp().contains_key(pino) { o.sb().update(o.mp()[pino].fs_idx as int, None) } else { o.sb() }).update(idx as int, Some(fs))
+        &&& n.maps() == o.maps().update(idx as int, m) && n.id_mapping == o.id_mapping
+        &&& n.mp()[pino].root_entry == n.entry_out(idx, e.inode, e)
+    }
+    spec fn post_umount(o: Vfs, n: Vfs, pino: u64) -> bool {
+        &&& o.mp().contains_key(pino)
+        &&& n.mp() == o.mp().remove(pino)
+        &&& n.sb() == o.sb().update(o.mp()[pino].fs_idx as int, None)
+        &&& n.maps() == o.maps().update(o.mp()[pino].fs_idx as int, None) && n.id_mapping == o.id_mapping
+    }
+    // a failed mount operation: routing tables untouched; per-mount mappings may only differ at vacant indices
+    spec fn err_frame(o: Vfs, n: Vfs) -> bool {
+        &&& n.sb() == o.sb() && n.mp() == o.mp() && n.id_mapping == o.id_mapping && n.maps().len() == o.maps().len()
+        &&& forall|i: int| 0 <= i < 256 ==> (#[trigger] n.maps()[i]) == o.maps()[i] || (o.sb()[i] is None && map_ok(n.maps()[i]))
+    }
+    proof fn lemma_inv_frame(o: Vfs, n: Vfs)
+        requires o.inv(), Vfs::err_frame(o, n)
+        ensures n.inv(),                                                                 // [C07.tables.failed_keeps_inv]
+    {
+        assert forall|i: int| 0 <= i < 256 implies map_ok(#[trigger] n.maps()[i]) by { assert(map_ok(o.maps()[i])); }
+        assert forall|k: u64| #[trigger] n.mp().contains_key(k) implies exists|x: Entry| n.mp()[k].root_entry == #[trigger] n.entry_out(n.mp()[k].fs_idx, n.mp()[k].ino, x) by {
+            let x = choose|x: Entry| o.mp()[k].root_entry == #[trigger] o.entry_out(o.mp()[k].fs_idx, o.mp()[k].ino, x);
+            assert(o.sb()[o.mp()[k].fs_idx as int] is Some);
+            assert(n.maps()[o.mp()[k].fs_idx as int] == o.maps()[o.mp()[k].fs_idx as int]);
+            assert(n.eff_map(o.mp()[k].fs_idx) == o.eff_map(o.mp()[k].fs_idx));
+            assert(n.entry_out(n.mp()[k].fs_idx, n.mp()[k].ino, x) == o.entry_out(o.mp()[k].fs_idx, o.mp()[k].ino, x));
+        }
+        assert forall|i: int| 0 <= i < 256 && (#[trigger] n.sb()[i]) is Some implies exists|k: u64| n.mp().contains_key(k) && (#[trigger] n.mp()[k]).fs_idx == i by {
+            let k = choose|k: u64| o.mp().contains_key(k) && (#[trigger] o.mp()[k]).fs_idx == i;
+            assert(n.mp().contains_key(k));
+        }
+    }
+    // the invariant implies what unit `vfs` assumes
+    proof fn lemma_inv_gives_wf(&self)
+        requires self.inv()
+        ensures self.wf(),                                                               // [C07.tables.wf]
+    {
+        assert forall|i: u8| map_ok(#[trigger] self.eff_map(i)) by { assert(map_ok(self.maps()[i as int])); }
+    }
+    proof fn lemma_mount_keeps_inv(o: Vfs, n: Vfs, idx: u8, pino: u64, e: Entry, fs: Arc<BackFileSystem>, m: Option<(u32, u32, u32)>)
+        requires o.inv(), map_ok(m), Vfs::post_mount(o, n, idx, pino, e, fs, m)
+        ensures n.inv(),                                                                 // [C07.tables.mount_keeps_inv]
+            // every other live mount keeps its index, its backend and its effective mapping
+            forall|k: u64| k != pino && o.mp().contains_key(k) ==> n.sb()[o.mp()[k].fs_idx as int] == o.sb()[(#[trigger] o.mp()[k]).fs_idx as int] && n.eff_map(o.mp()[k].fs_idx) == o.eff_map(o.mp()[k].fs_idx),
+            // a backend that was mounted at this path before is unreachable now
+            o.mp().contains_key(pino) ==> n.sb()[o.mp()[pino].fs_idx as int] is None,   // [C07.tables.overmount]
+    {
+        let old_idx = if o.mp().contains_key(pino) { o.mp()[pino].fs_idx as int } else { -1 };
+        assert forall|k: u64| #[trigger] n.mp().contains_key(k) implies n.mp()[k].fs_idx != 0 && n.mp()[k].ino <= 0xff_ffff_ffff_ffffu64 && n.sb()[n.mp()[k].fs_idx as int] is Some by {
+            if k != pino { assert(o.mp().contains_key(k)); assert(o.mp()[k].fs_idx as int != old_idx); }
+        }
+        assert forall|k: u64, l: u64| n.mp().contains_key(k) && n.mp().contains_key(l) && k != l implies (#[trigger] n.mp()[k]).fs_idx != (#[trigger] n.mp()[l]).fs_idx by {
+            if k != pino { assert(o.mp().contains_key(k)); }
+            if l != pino { assert(o.mp().contains_key(l)); }
+        }
+        assert forall|i: int| 0 <= i < 256 && (#[trigger] n.sb()[i]) is Some implies exists|k: u64| n.mp().contains_key(k) && (#[trigger] n.mp()[k]).fs_idx == i by {
+            if i == idx as int { assert(n.mp().contains_key(pino)); }
+            else {
+                assert(o.sb()[i] is Some);
+                let k = choose|k: u64| o.mp().contains_key(k) && (#[trigger] o.mp()[k]).fs_idx == i;
+                assert(k != pino); assert(n.mp().contains_key(k));
+            }
+        }
+        assert forall|i: int| 0 <= i < 256 implies map_ok(#[trigger] n.maps()[i]) by { if i != idx as int { assert(map_ok(o.maps()[i])); } }
+        assert forall|k: u64| #[trigger] n.mp().contains_key(k) implies exists|x: Entry| n.mp()[k].root_entry == #[trigger] n.entry_out(n.mp()[k].fs_idx, n.mp()[k].ino, x) by {
+            if k != pino {
+                assert(o.mp().contains_key(k));
+                let x = choose|x: Entry| o.mp()[k].root_entry == #[trigger] o.entry_out(o.mp()[k].fs_idx, o.mp()[k].ino, x);
+                assert(o.mp()[k].fs_idx != idx);
+                assert(n.eff_map(o.mp()[k].fs_idx) == o.eff_map(o.mp()[k].fs_idx));
+                assert(n.entry_out(n.mp()[k].fs_idx, n.mp()[k].ino, x) == o.entry_out(o.mp()[k].fs_idx, o.mp()[k].ino, x));
+            }
+        }
+    }
+    proof fn lemma_umount_keeps_inv(o: Vfs, n: Vfs, pino: u64)
+        requires o.inv(), Vfs::post_umount(o, n, pino)
+        ensures n.inv(),                                                                 // [C07.tables.umount_keeps_inv]
+            n.sb()[o.mp()[pino].fs_idx as int] is None,                                  // the unmounted backend's index stops resolving
+            forall|k: u64| k != pino && o.mp().contains_key(k) ==> n.sb()[o.mp()[k].fs_idx as int] == o.sb()[(#[trigger] o.mp()[k]).fs_idx as int] && n.eff_map(o.mp()[k].fs_idx) == o.eff_map(o.mp()[k].fs_idx),
+    {
+        let idx = o.mp()[pino].fs_idx as int;
+        assert forall|k: u64| #[trigger] n.mp().contains_key(k) implies n.mp()[k].fs_idx != 0 && n.mp()[k].ino <= 0xff_ffff_ffff_ffffu64 && n.sb()[n.mp()[k].fs_idx as int] is Some by {
+            assert(o.mp().contains_key(k)); assert(k != pino);
+        }
+        assert forall|i: int| 0 <= i < 256 && (#[trigger] n.sb()[i]) is Some implies exists|k: u64| n.mp().contains_key(k) && (#[trigger] n.mp()[k]).fs_idx == i by {
+            assert(o.sb()[i] is Some);
+            let k = choose|k: u64| o.mp().contains_key(k) && (#[trigger] o.mp()[k]).fs_idx == i;
+            assert(k != pino); assert(n.mp().contains_key(k));
+        }
+        assert forall|i: int| 0 <= i < 256 implies map_ok(#[trigger] n.maps()[i]) by { if i != idx { assert(map_ok(o.maps()[i])); } }
+        assert forall|k: u64| #[trigger] n.mp().contains_key(k) implies exists|x: Entry| n.mp()[k].root_entry == #[trigger] n.entry_out(n.mp()[k].fs_idx, n.mp()[k].ino, x) by {
+            assert(o.mp().contains_key(k)); assert(k != pino);
+            let x = choose|x: Entry| o.mp()[k].root_entry == #[trigger] o.entry_out(o.mp()[k].fs_idx, o.mp()[k].ino, x);
+            assert(n.eff_map(o.mp()[k].fs_idx) == o.eff_map(o.mp()[k].fs_idx));
+            assert(n.entry_out(n.mp()[k].fs_idx, n.mp()[k].ino, x) == o.entry_out(o.mp()[k].fs_idx, o.mp()[k].ino, x));
+        }
+    }
+}
 impl BackFileSystem {
     // BackendFileSystem::mount(): the backend's root entry and its largest inode number
     pub uninterp spec fn res_mount(&self) -> Result<(Entry, u64)>;
     #[verifier::external_body] pub fn mount(&self) -> (r: Result<(Entry, u64)>) requires self.touch_ok() ensures r == self.res_mount() { unimplemented!() }
 }
 impl Vfs {
-    pub open spec fn maps(&self) -> Seq<Option<(u32, u32, u32)>> { self.mount_id_mappings.cur()@ }
+    spec fn maps(&self) -> Seq<Option<(u32, u32, u32)>> { self.mount_id_mappings.cur()@ }
     // everything but the allocation cursor is unchanged
-    pub open spec fn same_tables(&self, o: Vfs) -> bool {
+    spec fn same_tables(&self, o: Vfs) -> bool {
         self.superblocks == o.superblocks && self.mountpoints == o.mountpoints && self.mount_id_mappings == o.mount_id_mappings && self.opts == o.opts
             && self.initialized == o.initialized && self.root == o.root && self.id_mapping == o.id_mapping && self.remove_pseudo_root == o.remove_pseudo_root
     }
